@@ -25,7 +25,9 @@ RES = MP + 'MemoryReservation'
 TRAIT = MP + 'MemoryPool'
 
 
-def explore(facts, rec, prefix, depth=0):
+def explore(facts, rec, prefix, depth=0, helpers=()):
+    if helpers:
+        return run_traces(facts, rec, C16.args_for(rec), hook=lock_hook, inline_depth=depth, inline_only=None, inline_pred=lambda n: n in helpers, time_budget=30)
     return run_traces(facts, rec, C16.args_for(rec), hook=lock_hook, inline_depth=depth, inline_only=(prefix,), time_budget=30)
 
 
@@ -38,80 +40,110 @@ def pool_calls(o, trait=TRAIT):
     return out
 
 
+def reservation_method(facts, d, adt, prefix, trait, helpers=()):
+    """-> (relevant, problems, npaths); raises Undecidable"""
+    rec = facts.fn(d)
+    outs = explore(facts, rec, prefix, helpers=helpers)
+    relevant = False
+    problems = set()
+    has_release_path = False
+    zero_swap_paths = 0
+    for o in outs:
+        ds = [x for x in delta_events(facts, o, inline_only=(prefix,), hook=lock_hook) if x[1] == 'size']
+        pcs = [p for p in pool_calls(o, trait) if p[0] in ('grow', 'shrink', 'try_grow')]
+        plain = [(atomic_op(nm), ln) for nm, a, ln in calls(o, is_atomic) if atomic_op(nm) == 'store' and (tag_of(a[0]) or '').endswith('.size')]
+        if plain:
+            problems.add('`size` is written with a plain atomic store (line %s): a read-modify-write split into load/store loses concurrent updates '
+                         '(only swap / fetch_add / fetch_sub / fetch_update keep reserved() == sum of reservations under concurrency)' % plain[0][1])
+        if not ds and not pcs:
+            continue
+        relevant = True
+        rk = ret_kind(o)
+        newres = [show(a[0]).lstrip('?') for nm, a, _ in calls(o) if nm.endswith('Atomic<usize>>::new') or nm.endswith('AtomicUsize::new') or
+                  nm.endswith('atomic::Atomic::<T>::new') or '::new' in nm and 'atomic' in nm.lower()]
+        built = any(e[0] == 'agg' and e[1] == adt for e in o.events)
+        if rk == 'Err':
+            committed = [x for x in ds if not x[4]] + [p for p in pcs if p[0] in ('grow', 'shrink')]
+            if committed:
+                problems.add('an error exit leaves a change behind: %s' % (committed,))
+            continue
+        bal = Counter()
+        wildcard = 0
+        for sign, fld, amt, line, try_ in ds:
+            if sign == '=':
+                wildcard += 1
+            else:
+                bal[amt] += 1 if sign == '+' else -1
+        for m, recv, amt, line in pcs:
+            bal[amt] -= 1 if m in ('grow', 'try_grow') else -1
+        if built:
+            for a in newres:
+                if a not in ('0',):
+                    bal[a] += 1
+        for k in [k for k, v in bal.items() if v == 0]:
+            del bal[k]
+        if wildcard:
+            # swap(size, 0): releases the whole reservation; must be matched by exactly one pool.shrink or be the zero branch
+            neg = [k for k, v in bal.items() if v == 1]
+            if len(bal) == 1 and len(neg) == 1:
+                has_release_path = True
+                continue
+            if not bal:
+                zero_swap_paths += 1
+                continue
+        if bal:
+            problems.add('size and pool change differ on a %s path: residual %s (size deltas %s, pool calls %s)' % (
+                rk, dict(bal), [x[:3] for x in ds], [p[:3] for p in pcs]))
+    if zero_swap_paths and not has_release_path:
+        problems.add('the reservation is reset to 0 but the pool is never shrunk by the old size')
+    return relevant, problems, len(outs)
+
+
 def check_reservation(ctx, facts, adt=RES, prefix=MP, trait=TRAIT, rule='reservation-balance'):
     bad = 0
     n = 0
-    methods = [d for d in facts.fn_index if d.startswith(adt + '::') and '{closure' not in d]
-    for d in sorted(methods):
-        rec = facts.fn(d)
-        if rec.get('coroutine'):
-            continue
+    methods = [d for d in sorted(facts.fn_index) if d.startswith(adt + '::') and '{closure' not in d and not facts.fn(d).get('coroutine')]
+    res = {}
+    for d in methods:
         try:
-            outs = explore(facts, rec, prefix)
+            res[d] = reservation_method(facts, d, adt, prefix, trait)
         except Undecidable as e:
-            ctx.undecided(rule, d, str(e))
+            res[d] = e
+    # a private method that moves only one side of the pair (e.g. an extracted `subtract_from_size`) is a building block, not an operation:
+    # it is followed inside its callers, which must then balance; it may only be called from methods of the reservation
+    helpers = set()
+    for d in methods:
+        r = res[d]
+        if not isinstance(r, Exception) and r[1] and not facts.fn(d).get('pub'):
+            callers = [c.split('::{closure')[0] for c in facts.callers_of(d)]
+            if callers and all(c in methods for c in callers):
+                helpers.add(d)
+    if helpers:
+        for d in methods:
+            if d not in helpers and any(h in facts.callees.get(d, ()) or any(h in facts.callees.get(k, ()) for k in facts.fn_index if k.startswith(d + '::{closure')) for h in helpers):
+                try:
+                    res[d] = reservation_method(facts, d, adt, prefix, trait, helpers=tuple(helpers))
+                except Undecidable as e:
+                    res[d] = e
+    for d in methods:
+        r = res[d]
+        rec = facts.fn(d)
+        if isinstance(r, Exception):
+            ctx.undecided(rule, d, str(r))
             bad += 1
             continue
         ctx.analysed_fns.add(d)
-        relevant = False
-        problems = set()
-        has_release_path = False
-        zero_swap_paths = 0
-        for o in outs:
-            ds = [x for x in delta_events(facts, o, inline_only=(prefix,), hook=lock_hook) if x[1] == 'size']
-            pcs = [p for p in pool_calls(o, trait) if p[0] in ('grow', 'shrink', 'try_grow')]
-            plain = [(atomic_op(nm), ln) for nm, a, ln in calls(o, is_atomic) if atomic_op(nm) == 'store' and (tag_of(a[0]) or '').endswith('.size')]
-            if plain:
-                problems.add('`size` is written with a plain atomic store (line %s): a read-modify-write split into load/store loses concurrent updates '
-                             '(only swap / fetch_add / fetch_sub / fetch_update keep reserved() == sum of reservations under concurrency)' % plain[0][1])
-            if not ds and not pcs:
-                continue
-            relevant = True
-            rk = ret_kind(o)
-            newres = [show(a[0]).lstrip('?') for nm, a, _ in calls(o) if nm.endswith('Atomic<usize>>::new') or nm.endswith('AtomicUsize::new') or
-                      nm.endswith('atomic::Atomic::<T>::new') or '::new' in nm and 'atomic' in nm.lower()]
-            built = any(e[0] == 'agg' and e[1] == adt for e in o.events)
-            if rk == 'Err':
-                committed = [x for x in ds if not x[4]] + [p for p in pcs if p[0] in ('grow', 'shrink')]
-                if committed:
-                    problems.add('an error exit leaves a change behind: %s' % (committed,))
-                continue
-            bal = Counter()
-            wildcard = 0
-            for sign, fld, amt, line, try_ in ds:
-                if sign == '=':
-                    wildcard += 1
-                else:
-                    bal[amt] += 1 if sign == '+' else -1
-            for m, recv, amt, line in pcs:
-                bal[amt] -= 1 if m in ('grow', 'try_grow') else -1
-            if built:
-                for a in newres:
-                    if a not in ('0',):
-                        bal[a] += 1
-            for k in [k for k, v in bal.items() if v == 0]:
-                del bal[k]
-            if wildcard:
-                # swap(size, 0): releases the whole reservation; must be matched by exactly one pool.shrink or be the zero branch
-                neg = [k for k, v in bal.items() if v == 1]
-                if len(bal) == 1 and len(neg) == 1:
-                    has_release_path = True
-                    continue
-                if not bal:
-                    zero_swap_paths += 1
-                    continue
-            if bal:
-                problems.add('size and pool change differ on a %s path: residual %s (size deltas %s, pool calls %s)' % (
-                    rk, dict(bal), [x[:3] for x in ds], [p[:3] for p in pcs]))
-        if zero_swap_paths and not has_release_path:
-            problems.add('the reservation is reset to 0 but the pool is never shrunk by the old size')
-        if relevant:
-            n += 1
-            if problems:
-                bad += 1
-                ctx.fail(rule, d, ctx.loc(rec), '; '.join(sorted(problems)), key='%s|%s' % (rule, d))
-            else:
-                ctx.ok(rule, d, sample={'fn': d, 'paths': len(outs)})
+        relevant, problems, npaths = r
+        if not relevant:
+            continue
+        n += 1
+        if d in helpers:
+            ctx.ok(rule, d, sample={'fn': d, 'role': 'private one-sided helper, followed inside its callers', 'callers': sorted(set(facts.callers_of(d)))})
+        elif problems:
+            bad += 1
+            ctx.fail(rule, d, ctx.loc(rec), '; '.join(sorted(problems)), key='%s|%s' % (rule, d))
+        else:
+            ctx.ok(rule, d, sample={'fn': d, 'paths': npaths})
     return bad, n
 
 
